@@ -161,6 +161,8 @@ def veto_case(draw):
             "beta": draw(st.sampled_from([0.5, 1.0, 2.0])), "expo": draw(gen.log_uniform(1e-2, 3.0)),
             "ts": [float(draw(st.integers(0, 20))), draw(gen.floats(0.0, 0.999))],
             "composite": draw(st.booleans()),
+            # a handler without a charge (every unit counts as 1) whose estimator has a negative correction factor
+            "no_charge": draw(st.integers(0, 3)) == 0, "estimator_sign": draw(st.sampled_from([1.0, -1.0])),
             "leaf_shift": [draw(gen.floats(-0.7, 0.7)) for _ in range(3)],
             "probe_rows": draw(st.lists(st.integers(0, 10 ** 6), min_size=2, max_size=4)),
             "target_frac": [draw(gen.floats(0.1, 0.9)) for _ in range(3)]}
@@ -188,7 +190,8 @@ def body_veto(rec, **c):
         hypercubic_setting.HypercubicSetting(beta=c["beta"], dimension=3, system_length=lengths[0])
     else:
         hypercuboid_setting.HypercuboidSetting(beta=c["beta"], dimension=3, system_lengths=list(lengths))
-    composite = bool(c.get("composite"))
+    no_charge = bool(c.get("no_charge"))
+    composite = bool(c.get("composite")) and not no_charge
     setting.set_number_of_root_nodes(2)
     setting.set_number_of_nodes_per_root_node(2 if composite else 1)
     setting.set_number_of_node_levels(2 if composite else 1)
@@ -200,11 +203,16 @@ def body_veto(rec, **c):
         from jellyfysh.lifting.inside_first_lifting import InsideFirstLifting
         handler = CompositeObjectCellVetoEventHandler(estimator=Estimator(pot, bound_function),
                                                       lifting=InsideFirstLifting(), charge="q")
+    elif no_charge:
+        handler = mod_leaf.LeafUnitCellVetoEventHandler(
+            estimator=Estimator(pot, bound_function, sign=c.get("estimator_sign", 1.0)), charge=None)
     else:
         handler = mod_leaf.LeafUnitCellVetoEventHandler(estimator=Estimator(pot, bound_function), charge="q")
     with contextlib.redirect_stdout(io.StringIO()):
         handler.initialize(cells, 1)
     d, speed, qa = c["direction"], c["speed"], c["charge"]
+    if no_charge:
+        qa = c.get("estimator_sign", 1.0)      # the charge correction factor the handler works with
     by_id = {cell.identifier: cell for cell in cells.yield_cells()}
     acell = by_id[tuple(c["active_cell"])]
     apos = [acell.cell_min[i] + (acell.cell_max[i] - acell.cell_min[i]) * c["frac"][i] for i in range(3)]
@@ -281,18 +289,23 @@ def body_veto(rec, **c):
                          off, acell.identifier, prob.get(off, 0.0), want, per, d, qa), c)
     # confirmation against the bound stored for the sampled offset
     nt = any(x in (0, per[i] - 1) for i, x in enumerate(acell.identifier))
-    for row in ([] if composite else c["probe_rows"]):
+    # (a handler without a charge evaluates the true potential with unit charges, whatever the sign of its estimator's
+    # correction factor: with a negative factor the stored bounds do not bound that rate, so only the proposals - candidate
+    # time and offset probabilities - are decidable there; with a positive factor the target counts as charge 1 as well)
+    skip_confirmation = composite or (no_charge and qa < 0.0)
+    target_charge = 1.0 if no_charge else c["target_charge"]
+    for row in ([] if skip_confirmation else c["probe_rows"]):
         t, tcell, _, node = propose(row % rows, 0.37)
         off = offset_of(tcell)
         bound = offsets[off] * abs(qa)
         tpos = [tcell.cell_min[i] + (tcell.cell_max[i] - tcell.cell_min[i]) * c["target_frac"][i] for i in range(3)]
         sep = setting.periodic_boundaries.separation_vector(node.value.position, tpos)
-        q_true = -energies.inverse_power_grad(1.0, 1.0, qa * c["target_charge"], sep, d) * speed
+        q_true = -energies.inverse_power_grad(1.0, 1.0, qa * target_charge, sep, d) * speed
         thr = max(0.0, q_true) / bound
 
         def confirm(u):
             _, tc2, _, nd = propose(row % rows, 0.37)
-            tnode = Node(Unit((1,), list(tpos), {"q": c["target_charge"]}, None, None), weight=1)
+            tnode = Node(Unit((1,), list(tpos), {"q": target_charge}, None, None), weight=1)
             s_bp = Scripted(uniforms=[u], strict=False)
             old = mod_bp.random
             mod_bp.random = s_bp
